@@ -6,7 +6,7 @@ SPEC = dict(
     property='C12',
     groups=[
         dict(name='roster', harness='h.cpp', tus=TUS, models=['qt_core.c', 'qt_list.c', 'qt_dom.c', 'models.c'], shadow_task=True,
-             instances=[I('push_unauth_n1'), I('push_unauth_n2')]),
+             instances=[I(n) for n in ['push_unauth_n1', 'push_unauth_n2', 'push_auth_nofrom_n2', 'push_auth_from_n2', 'push_auth_from_n1', 'push_auth_from_n0']]),
     ],
     bounds=[], assumptions=[], outside=[],
 )
